@@ -308,13 +308,6 @@ static carquet_status_t flush_row_group(carquet_writer_t* writer) {
         return status;
     }
 
-    /* Write row group data to file */
-    if (size > 0) {
-        if (fwrite(data, 1, size, writer->file) != size) {
-            return CARQUET_ERROR_FILE_WRITE;
-        }
-    }
-
     /* Store row group metadata */
     if (writer->num_row_groups >= writer->row_groups_capacity) {
         int32_t new_cap = writer->row_groups_capacity == 0 ? 4 : writer->row_groups_capacity * 2;
@@ -396,6 +389,16 @@ static carquet_status_t flush_row_group(carquet_writer_t* writer) {
             if (!meta->path_in_schema[0]) {
                 return CARQUET_ERROR_OUT_OF_MEMORY;
             }
+        }
+    }
+
+    /* Write row group data to file.  This comes after everything above that can fail for lack
+     * of memory: a flush that failed there has written nothing, so repeating it (a second
+     * carquet_writer_new_row_group, or carquet_writer_close) does not put the row group into
+     * the file twice at offsets the metadata knows nothing about. */
+    if (size > 0) {
+        if (fwrite(data, 1, size, writer->file) != size) {
+            return CARQUET_ERROR_FILE_WRITE;
         }
     }
 
